@@ -173,6 +173,12 @@ func readString(r io.Reader) (string, error) {
 		return "", err
 	}
 
+	// A length prefix that promises more bytes than are left is corrupt: refuse it
+	// before allocating (a 40-byte input must not make us allocate gigabytes)
+	if lr, ok := r.(interface{ Len() int }); ok && int64(length) > int64(lr.Len()) {
+		return "", io.ErrUnexpectedEOF
+	}
+
 	// Read string data
 	data := make([]byte, length)
 	if _, err := io.ReadFull(r, data); err != nil {
@@ -289,6 +295,9 @@ func deserializeBinaryFormat(data []byte) (*CompiledTemplate, error) {
 		return nil, fmt.Errorf("failed to read AST length: %w", err)
 	}
 
+	if int64(astLength) > int64(r.Len()) {
+		return nil, fmt.Errorf("failed to read AST data: %w", io.ErrUnexpectedEOF)
+	}
 	compiled.AST = make([]byte, astLength)
 	if _, err := io.ReadFull(r, compiled.AST); err != nil {
 		return nil, fmt.Errorf("failed to read AST data: %w", err)
